@@ -26,6 +26,7 @@ RULE = ('cases = random G-PIT programs x {params, params_no_bias, ops, ops_no_bi
         'a = 8, parallel-accelerator reduction).  Non-trivial: the cost has a non-zero gradient '
         'w.r.t. at least one architectural parameter; distinct = hash of (model, spec, values).')
 RULE += ('  Round 2: SuperNet metrics queried as entries of a dictionary specification after another entry, compared with a twin whose only specification is that metric.')
+RULE += ('  Round 4: a hidden MPS layer pruned away completely (every channel at 0 bit, saturated).')
 ASSUMPTIONS = [
     '"whose increase raises the metric" is decided operationally: +1e-3 on one element raises the '
     'cost by more than 1e-6 relative (keep-alive elements, exact zeros of abs() and elements '
